@@ -169,6 +169,31 @@ def check(run, prog, tier):
 
     # ------------------------------------------------------------------ V2
     scan = Scan(prog)
+    # a round hands ONE `events` object to every subscriber's _notify_single: it is iterated once per subscriber, so it must
+    # be re-iterable.  A generator expression / iterator would be drained by the first subscriber, the others get nothing.
+    one_shot = []
+    n_sites = 0
+    for fn_ in (na, ns):
+        pidx = [p_ for p_ in fn_.params()[1:]].index("events") if "events" in fn_.params() else None
+        for fi, r, e in scan.callers_of(fn_.qual):
+            a = None
+            if e.sched and e.cb is not None:
+                a = dict(e.cbkwargs).get("events") or (e.cbargs[pidx] if pidx is not None and len(e.cbargs) > pidx else None)
+            else:
+                a = dict(e.kwargs).get("events") or (e.args[pidx] if pidx is not None and len(e.args) > pidx else None)
+            if a is None:
+                continue
+            n_sites += 1
+            gen = (a[0] == "comp" and a[1] == "gen") or \
+                (a[0] == "call" and a[1][0] == "ext" and a[1][1] in ("iter", "map", "filter", "zip", "reversed", "enumerate", "itertools.chain")) or \
+                (a[0] == "call" and a[1][0] in ("bound", "func") and prog.functions.get(a[1][-1]) is not None and
+                 any(isinstance(n_, (__import__("ast").Yield, __import__("ast").YieldFrom)) for n_ in __import__("ast").walk(prog.functions[a[1][-1]].node)))
+            if gen and fn_ is na:
+                one_shot.append((fi, e, a))
+    run.ob("V2", f"{na.qual}:events-object-is-reiterable", not one_shot, loc(one_shot[0][0], one_shot[0][1].node) if one_shot else loc(na),
+           f"{n_sites} call site(s) pass a re-iterable collection of event ids" if not one_shot else
+           f"{one_shot[0][0].qual} hands the one-shot iterator {show(one_shot[0][2])[:70]} to a round: the first subscriber's _notify_single drains it, "
+           "every other subscriber builds an empty batch and is skipped")
     writers = {}
     for fi, r, e in scan.all():
         if e.kind == "call" and e.attrname in ("add", "remove", "discard", "clear", "pop", "update") and e.recv == ("attr", me, "subscribed_endpoints"):
